@@ -31,7 +31,8 @@ class _Poison:
         object.__setattr__(self, '_n', name)
 
     def _boom(self, *a, **k):
-        raise S.Unsupported('use of havocked variable %r that the CutSpec does not define' % object.__getattribute__(self, '_n'))
+        # the loop writes a variable its contract does not know (e.g. a new flag introduced by a rewrite of the loop): the contract is out of date
+        raise S.Unbound('use of havocked variable %r that the CutSpec does not define' % object.__getattribute__(self, '_n'))
     __getattr__ = __getitem__ = __setitem__ = __call__ = __iter__ = __len__ = __bool__ = __add__ = __radd__ = \
         __mul__ = __rmul__ = __sub__ = __rsub__ = __lt__ = __gt__ = __le__ = __ge__ = __eq__ = __hash__ = __float__ = _boom
 
